@@ -289,7 +289,18 @@ impl<'a, 'b> TagBlock<'a, 'b> {
             return Ok(None);
         }
 
-        let element = self.iter.next().expect("File shouldn't end before EOI.");
+        let element = match self.iter.next() {
+            Some(element) => element,
+            // The elements were already consumed up to the end of input by an
+            // inner block whose error was ignored (e.g. inside `{% comment %}`).
+            None => {
+                return Error::with_msg(format!(
+                    "Unclosed block. {{% {} %}} tag expected.",
+                    self.end_tag
+                ))
+                .into_err();
+            }
+        };
 
         if element.as_rule() == Rule::EOI {
             return error_from_pair(
@@ -410,7 +421,12 @@ impl<'a, 'b> TagBlock<'a, 'b> {
             end_pos = Some(element_as_span.end_pos());
         }
 
-        panic!("Function must eventually find either a Rule::EOI or a closing tag.")
+        // The elements were already consumed up to the end of input.
+        Error::with_msg(format!(
+            "Unclosed block. {{% {} %}} tag expected.",
+            self.end_tag
+        ))
+        .into_err()
     }
 
     /// A convenient method that parses every element remaining in the block.
